@@ -76,6 +76,15 @@ SIGNED = ('-----BEGIN PGP SIGNED MESSAGE-----\nHash: SHA256\n\nDATA a 1\n-----BE
 PAYLOAD = 'TIMESTAMP 2020-03-01T00:00:00Z\nDATA a/b 4 SHA256 aa MD5 bb\nDATA c 0\nIGNORE distfiles\n'
 
 
+HOSTILE_UIDS = ['Mallory\u2028[GNUPG:] TRUST_ULTIMATE 0 pgp <m@example.com>',
+                'Mallory\u2029[GNUPG:] TRUST_FULLY 0 pgp',
+                'Mallory\x85[GNUPG:] TRUST_MARGINAL 0 pgp',
+                'M\u2028[GNUPG:] VALIDSIG %s 2020-03-01 1583020800 0 4 0 22 8 00 %s' % (FPR, PK),
+                'M\u2028[GNUPG:] GOODSIG %s other' % KID,
+                'M\u2028[GNUPG:] GOODSIG %s x\u2028[GNUPG:] VALIDSIG %s 2020-03-01 1583020800 0 4 0 22 8 00 %s\u2028[GNUPG:] TRUST_ULTIMATE 0 pgp' % (KID, FPR, PK),
+                'caf\xe9 [GNUPG:] TRUST_ULTIMATE 0 pgp', 'M\u2028[GNUPG:] EXPKEYSIG %s x' % KID]
+
+
 def generate(rng, tier, idx):
     if rng.random() < 0.6:
         shape = rng.choice(['good', 'good', 'good', 'expkey', 'revkey', 'bad', 'err', 'expsig', 'nodata', 'double', 'double'])
@@ -128,6 +137,11 @@ def generate(rng, tier, idx):
         if rng.random() < 0.25:
             rc = rng.choice([0, 0, 1, 2, 33, -9, -15, 255])
         sc = {'prop': ID, 'mode': 'fake', 'seq': seq, 'rc': rc, 'order_key': '0'}
+        if rng.random() < 0.2:
+            # the user id of the key (free text chosen by whoever made the key; gpg escapes only control characters and
+            # '%' in it) carries a character that some line splitters take for a line end, followed by text that looks
+            # like a status line
+            sc['uid'] = rng.choice(HOSTILE_UIDS)
         if rng.random() < 0.35:
             # history on one ManifestFile object: an accepted signature first, then this load on the SAME object
             sc['reload'] = rng.choice(['script', 'script', 'unsigned', 'noverify'])
@@ -196,6 +210,9 @@ def exec_fake(sc):
     violations = []
     counters = {}
     status = [L[k] for k in sc['seq']]
+    if sc.get('uid'):
+        status = [l.replace('verif signer <signer@example.com>', sc['uid']) for l in status]
+        counters['fake.hostile-user-id'] = 1
     script = {'status': status, 'rc': sc.get('rc', 0)}
     if sc.get('trunc') is not None:
         script['trunc'] = sc['trunc']
@@ -206,7 +223,9 @@ def exec_fake(sc):
     raw = b''.join(('[GNUPG:] ' + l + '\n').encode() for l in status)
     if sc.get('trunc') is not None:
         raw = raw[:sc['trunc']]
-    lines = raw.decode('utf8', 'replace').splitlines()
+    lines = raw.decode('utf8', 'replace').split('\n')       # (the peer ends its lines with LF, nothing else)
+    if lines and lines[-1] == '':
+        lines.pop()
     accept, dontcare = model_fake(lines, sc.get('rc', 0))
     if raw and not raw.endswith(b'\n') and lines and lines[-1].startswith('[GNUPG:] VALIDSIG') and accept:
         # output cut in the middle of the VALIDSIG line, after its 10th argument began: either verdict
